@@ -6,12 +6,14 @@ import os
 import vf
 
 
-def record(ctx):
+def record(ctx, census=False):
+    """census: keep the end-of-run goroutine census entry (family leakcheck) in the report and let the driver wait for it (C11)"""
     drv = ctx.build_driver('lcdriver')
     trace = os.path.join(ctx.scratch, 'lc_trace.ndjson')
     report = os.path.join(ctx.scratch, 'lc_report.json')
-    ctx.run_driver(drv, ['run', trace, report], timeout=1500)
-    return trace, vf.read_json(report)
+    ctx.run_driver(drv, ['run', trace, report], timeout=1500, env={'VF_CENSUS': '1' if census else '0'})
+    rep = vf.read_json(report)
+    return trace, [s for s in rep if census or s.get('family') != 'leakcheck']
 
 
 def scenarios_of(lines):
